@@ -83,6 +83,10 @@ func runC11(c *fw.Case) (o fw.Outcome) {
 				o.Fail("suci-len", "EncodeSuci(%s,%d): Len %d but %d octets", imsi, mncLen, suci.Len, len(suci.Buffer))
 				return
 			}
+			if m := retainCheck("suci", suci.Buffer, "EncodeSuci("+imsi+")"); m != "" {
+				o.Fail("retained-identity-changed", "%s", m)
+				return
+			}
 			gm, gn, gs, scheme, err := decSUCI(suci.Buffer)
 			o.Count("sucis_decoded", 1)
 			if err != nil {
@@ -181,6 +185,10 @@ func c11Ngap(imsi, mcc, mnc string, want []byte) string {
 	if m := check("NGSetupRequest", b); m != "" {
 		return m
 	}
+	// other subscribers are handled after NG Setup (RegisterUE encodes each UE's SUCI): the announced PLMN must stay
+	visitor := fmt.Sprintf("%03d%02d%010d", (atoiDigits(mcc)+317)%1000, (atoiDigits(mnc)+41)%100, 123456789)
+	stgutg.EncodeSuci([]byte(visitor), 2)
+	stgutg.EncodeSuci([]byte(imsi[:len(imsi)-1]+"9"), len(mnc))
 	b, err = tglib.GetInitialUEMessage(7, []byte{0x7e, 0, 0x41}, "")
 	if err != nil {
 		return "GetInitialUEMessage: " + err.Error()
@@ -194,4 +202,12 @@ func c11Ngap(imsi, mcc, mnc string, want []byte) string {
 	}
 	_ = tp.TestPlmn
 	return check("UplinkNASTransport after that NG Setup", b)
+}
+
+func atoiDigits(s string) int {
+	n := 0
+	for _, c := range s {
+		n = n*10 + int(c-'0')
+	}
+	return n
 }
